@@ -184,9 +184,15 @@ impl Scanner {
                         let b = std::mem::take(&mut self.block);
                         let f = self.fields(&b);
                         match self.in_block.take() {
-                            Some((1, s0, f0, _)) => out.push(format!("C:{}:{}:{} ;; H:{}:{}:{}:{}", sid, fl, len, s0, f0 | 4, b.len(), f)),
-                            Some((_, s0, _, pr)) => out.push(format!("C:{}:{}:{} ;; PP:{}:{}:{}:{}", sid, fl, len, s0, pr, b.len(), f)),
-                            None => out.push(format!("C:{}:{}:{} ;; !stray-continuation", sid, fl, len)),
+                            Some((1, s0, f0, _)) => {
+                                out.push(format!("C:{}:{}:{}", sid, fl, len));
+                                out.push(format!("H:{}:{}:{}:{}", s0, f0 | 4, b.len(), f));
+                            }
+                            Some((_, s0, _, pr)) => {
+                                out.push(format!("C:{}:{}:{}", sid, fl, len));
+                                out.push(format!("PP:{}:{}:{}:{}", s0, pr, b.len(), f));
+                            }
+                            None => out.push(format!("C:{}:{}:{}", sid, fl, len)),
                         }
                     } else {
                         out.push(format!("C:{}:{}:{}", sid, fl, len));
@@ -402,6 +408,35 @@ impl ConnH {
             if wk2.is_empty() { "-".to_string() } else { wk2.join(",") },
             st
         )
+    }
+
+    /// DATA frames sitting in the codec's write buffer (already handed over by the stream layer,
+    /// not yet fully accepted by the transport): stream ids, one per frame. Read from the dump.
+    fn codec_pending_data(&self) -> Vec<u32> {
+        let text = match &self.kind {
+            ConnKind::Client(c, _, _) => format!("{:#?}", c),
+            ConnKind::Server(c) => format!("{:#?}", c),
+            ConnKind::Gone => return vec![],
+        };
+        let v = dbg::parse(&text);
+        let mut out = vec![];
+        if let Some(enc) = v.find("FramedWrite").and_then(|f| f.get("encoder")) {
+            let cur = enc.get("buf");
+            let pos = cur.and_then(|c| c.get("pos")).and_then(|p| p.num()).unwrap_or(0) as usize;
+            let bytes = cur.and_then(|c| c.get("inner")).and_then(|b| b.atom()).map(unescape).unwrap_or_default();
+            let mut i = 0usize;
+            while i + 9 <= bytes.len() {
+                let len = ((bytes[i] as usize) << 16) | ((bytes[i + 1] as usize) << 8) | bytes[i + 2] as usize;
+                let ty = bytes[i + 3];
+                let sid = u32::from_be_bytes([bytes[i + 5], bytes[i + 6], bytes[i + 7], bytes[i + 8]]) & 0x7fff_ffff;
+                let end = i + 9 + len;
+                if ty == 0 && end > pos {
+                    out.push(sid);
+                }
+                i = end;
+            }
+        }
+        out
     }
 
     /// digest of the internal state from the `{:#?}` dump (no hook needed)
@@ -804,13 +839,16 @@ impl ConnH {
             }
             ("cn_reset", [k, code]) => {
                 let code: u32 = code.parse().ok()?;
+                let inflight = self.codec_pending_data();
                 let s = self.slot(k)?;
+                let sid = s.sid;
+                let n = inflight.iter().filter(|x| **x == sid).count();
                 if let Some(ss) = s.send.as_mut() {
                     ss.send_reset(h2::Reason::from(code));
-                    "ok".into()
+                    format!("ok cb={}", n)
                 } else if let Some(r) = s.responder.as_mut() {
                     r.send_reset(h2::Reason::from(code));
-                    "ok".into()
+                    format!("ok cb={}", n)
                 } else {
                     "nohandle".into()
                 }
@@ -1041,6 +1079,49 @@ impl ConnH {
         };
         Some(self.finish(r))
     }
+}
+
+/// bytes of a `b"..."` Debug rendering
+fn unescape(s: &str) -> Vec<u8> {
+    let b = s.as_bytes();
+    let mut out = vec![];
+    let mut i = if b.starts_with(b"b\"") { 2 } else { 0 };
+    let end = if b.ends_with(b"\"") && b.len() > i { b.len() - 1 } else { b.len() };
+    while i < end {
+        if b[i] == b'\\' && i + 1 < end {
+            match b[i + 1] {
+                b'x' if i + 3 < end => {
+                    let h = std::str::from_utf8(&b[i + 2..i + 4]).ok().and_then(|h| u8::from_str_radix(h, 16).ok()).unwrap_or(0);
+                    out.push(h);
+                    i += 4;
+                }
+                b'n' => {
+                    out.push(b'\n');
+                    i += 2;
+                }
+                b'r' => {
+                    out.push(b'\r');
+                    i += 2;
+                }
+                b't' => {
+                    out.push(b'\t');
+                    i += 2;
+                }
+                b'0' => {
+                    out.push(0);
+                    i += 2;
+                }
+                c => {
+                    out.push(c);
+                    i += 2;
+                }
+            }
+        } else {
+            out.push(b[i]);
+            i += 1;
+        }
+    }
+    out
 }
 
 fn io_kind(k: &str) -> std::io::ErrorKind {
